@@ -86,5 +86,6 @@ bool ops_bias(Ctx &c, Toks const &t);
 bool ops_c13(Ctx &c, Toks const &t);
 bool ops_c09(Ctx &c, Toks const &t);
 bool ops_c10(Ctx &c, Toks const &t);
+bool ops_c16(Ctx &c, Toks const &t);
 
 #endif
